@@ -29,6 +29,8 @@ def blockSize : Nat := 16 * 1024
 structure Blk where
   size : Nat
   requested : Bool
+  /-- an answer for this block has been stored (fix for finding C17-F6: a repeated answer is an error) -/
+  received : Bool := false
   deriving Repr, DecidableEq, Inhabited
 
 structure ID where
@@ -45,8 +47,8 @@ def createBlocks (bs sz : Nat) : List Blk :=
   let numBlocks := sz / bs
   let mod := sz % bs
   let numBlocks := if mod ≠ 0 then numBlocks + 1 else numBlocks
-  let blocks : List Blk := List.replicate numBlocks ⟨bs, false⟩
-  if mod ≠ 0 ∧ blocks.length > 0 then blocks.set (blocks.length - 1) ⟨mod, false⟩ else blocks
+  let blocks : List Blk := List.replicate numBlocks ⟨bs, false, false⟩
+  if mod ≠ 0 ∧ blocks.length > 0 then blocks.set (blocks.length - 1) ⟨mod, false, false⟩ else blocks
 
 /-- `New(pe)`: `Bytes = make([]byte, size)` is zero-filled. -/
 def newWith (bs sz : Nat) : ID :=
@@ -58,6 +60,7 @@ inductive GotErr
   | index        -- "peer sent invalid metadata piece index"
   | unrequested  -- "peer sent unrequested index for metadata message"
   | size         -- "peer sent invalid size for metadata message"
+  | duplicate    -- "peer sent metadata piece again"
   deriving Repr, DecidableEq
 
 inductive GotRes
@@ -74,7 +77,10 @@ def gotBlock (bs : Nat) (d : ID) (index : Nat) (data : Bytes) : ID × GotRes :=
   | some b =>
     if !b.requested then (d, .err .unrequested) else
     if data.length ≠ b.size then (d, .err .size) else
-    let d1 := { d with pending := d.pending - 1 }
+    -- a second answer for a block is refused: it used to be counted as the answer to another request, so that
+    -- `pending` went negative and `RequestBlocks` asked for more than its window (finding C17-F6)
+    if b.received then (d, .err .duplicate) else
+    let d1 := { d with pending := d.pending - 1, blocks := d.blocks.set index { b with received := true } }
     let begin := index * bs
     let end_ := begin + b.size
     if end_ > d.bytes.length then (d1, .panic) else
